@@ -102,6 +102,7 @@ class Link(base.BaseObject):
         self._vertices.append(new)
         if (new is not None) and (self not in new.links):
             new.add_to_link(self)
+        self._invalidate_ends()
 
     def unlink_from(self, kill: Vertex):
         """
@@ -121,3 +122,14 @@ class Link(base.BaseObject):
                 # it is detached from the link altogether
                 self._vertices = [v for v in self._vertices if v is not kill]
                 kill.remove_from_link(self)
+            self._invalidate_ends()
+
+    def _invalidate_ends(self):
+        """
+        Tell every vertex on this link that its neighbors may have changed
+        (the neighbors of a vertex depend on the *other* ends of its links).
+        """
+        for vert in self._vertices:
+            if vert is not None:
+                # pylint: disable-next=protected-access
+                vert._qa_neighbors_invalidate()
